@@ -56,4 +56,19 @@ def cacheProfileLiteral : String :=
 from `p`'s field of the same meaning (`cacheOfProf` in the model). -/
 theorem cache_profile_literal_src : cache_profile_literal = cacheProfileLiteral := rfl
 
+
+/-! Round 4: production wiring (`Model/Record.lean`, "Production wiring"). -/
+/-- `builder.queryLog`: the file log only if `query_log.file.enabled`, else `querylog.Empty{}`. -/
+theorem querylog_switch_src : querylog_file_needed = "b.conf.QueryLog.File.Enabled" ∧ querylog_guard = "!fileNeeded" ∧
+    querylog_returns = "querylog.Empty{}" := by decide
+/-- `dnssvc.newDeviceFinder`: a group without profiles gets the empty device finder (`wiredLookup`). -/
+theorem device_finder_src : device_finder_guard = "!g.ProfilesEnabled" ∧ device_finder_empty = "agd.EmptyDeviceFinder{}" := by decide
+/-- `deviceByAddrs`: the linked address only with `LinkedIPEnabled`. -/
+theorem linked_ip_src :
+    linked_ip_guard = "f.srv.BindsToInterfaces() && !f.srv.HasAddr(laddr) | !f.srv.LinkedIPEnabled" := by decide
+/-- `serverProto.toInternal` = `protoOfYAML`, case by case. -/
+theorem proto_src :
+    proto_cases = "srvProtoDNS | srvProtoDNSCrypt | srvProtoHTTPS | srvProtoQUIC | srvProtoTLS | default" ∧
+    proto_returns = "agd.ProtoDNS | agd.ProtoDNSCrypt | agd.ProtoDoH | agd.ProtoDoQ | agd.ProtoDoT | agd.ProtoInvalid" := by decide
+
 end Agd.Tie.C15
